@@ -202,6 +202,8 @@ def build(spec, registry=None):
         elif cls == "Sensor":
             obj = magpy.Sensor(pixel=spec.get("pixel"), handedness=spec.get("handedness", "right"), **kw)
         elif cls == "CustomSource":
+            if "ff" in spec:
+                kw["field_func"] = make_field_func(spec["ff"])
             obj = magpy.misc.CustomSource(**kw)
         else:
             C = getattr(magpy.magnet, cls, None) or getattr(magpy.current, cls, None) or getattr(magpy.misc, cls)
@@ -216,6 +218,30 @@ def build(spec, registry=None):
     if registry is not None:
         registry.append(obj)
     return obj
+
+
+def make_field_func(ff):
+    """deterministic custom field function from a JSON-able description:
+    B = A.obs + b (local frame), H = B * h ; J, M not implemented (None)"""
+    A = np.array(ff["A"], float)
+    b = np.array(ff["b"], float)
+    h = float(ff.get("h", 2.0))
+
+    def field_func(field, observers):
+        if field == "B":
+            return np.asarray(observers, float) @ A.T + b
+        if field == "H":
+            return (np.asarray(observers, float) @ A.T + b) * h
+        return None
+
+    return field_func
+
+
+def rand_custom(rng, path_len=1, pos_scale=1.0):
+    pos, ori = rand_path(rng, path_len, pos_scale)
+    return {"cls": "CustomSource", "ff": {"A": (rng.normal(size=(3, 3)) * 0.3).tolist(), "b": rng.normal(size=3).tolist(),
+                                          "h": float(rng.uniform(0.5, 3))},
+            "position": pos, "orientation": ori}
 
 
 def path_len(spec):
